@@ -88,14 +88,19 @@ def _replay_exe():
     exe = os.path.join(tdir, "debug", "abyss-replay")
     return exe if os.path.exists(exe) else None
 
-def bounded_scenarios(prop, budget=240):
+def thorough_extra_scenarios(prop):
+    """thorough tier: 60 more pseudo-random histories (seeds 100..159, 2..64 keys, 300..3000 operations) for the properties that use histories"""
+    if not any(a[0] == "history" for a in BOUNDED_SCEN.get(prop, [])): return []
+    return [["history", str(100 + i), str([2, 3, 5, 8, 13, 21, 34, 64][i % 8]), str(300 + 45 * i)] for i in range(60)]
+
+def bounded_scenarios(prop, budget=240, tier="quick"):
     """runs every scenario of the property; returns list of dicts {argv, ok, output}"""
     import subprocess
     exe = _replay_exe()
     out = []
     if not exe: return out
     t_end = time.time() + budget
-    for argv in BOUNDED_SCEN.get(prop, []):
+    for argv in BOUNDED_SCEN.get(prop, []) + (thorough_extra_scenarios(prop) if tier == "thorough" else []):
         if time.time() > t_end: break
         try:
             p = subprocess.run([exe] + argv, stdout=subprocess.PIPE, stderr=subprocess.STDOUT, text=True, timeout=90, env=dict(os.environ, RUST_BACKTRACE="0"))
@@ -180,7 +185,7 @@ def check(prop, tier, args):
     pool = concurrent.futures.ThreadPoolExecutor(max_workers=4)
     # Kani leg and the bounded stand-in scenarios are independent of the Verus leg: start them now, join later
     fut_kani = pool.submit(kani_leg, prop, tier)
-    fut_scen = pool.submit(bounded_scenarios, prop) if prop in BOUNDED_SCEN else None
+    fut_scen = pool.submit(bounded_scenarios, prop, 240 if tier == "quick" else 900, tier) if prop in BOUNDED_SCEN else None
     if getattr(args, "replay", None):
         return do_replay(prop, args.replay)
     seed = int(os.environ.get("VERIF_SEED", "0") or 0)
